@@ -101,6 +101,7 @@ def main():
     ap.add_argument("--start", type=int, default=0)
     ap.add_argument("--workers", type=int, default=int(os.environ.get("VERIF_WORKERS", "16")))
     ap.add_argument("--no-evidence", action="store_true")
+    ap.add_argument("--evidence-out", help="write the evidence JSON to this path instead of evidence/<PROP>.json")
     ap.add_argument("--no-selfcheck", action="store_true")
     ap.add_argument("--show", type=int, help="print the event log of one run index and exit")
     args = ap.parse_args()
@@ -335,12 +336,13 @@ def write_evidence(core, mod, prop, seed, args, total, truncated, det, known_see
         "wall_s": round(wall, 2),
         "violations": len(new_violations),
     }
-    os.makedirs(os.path.join(HERE, "evidence"), exist_ok=True)
-    tmp = os.path.join(HERE, "evidence", f".{prop}.json.tmp")
+    out = args.evidence_out or os.path.join(HERE, "evidence", f"{prop}.json")
+    os.makedirs(os.path.dirname(os.path.abspath(out)), exist_ok=True)
+    tmp = out + ".tmp"
     with open(tmp, "w") as f:
         json.dump(ev, f, indent=1, default=core._json_default)
         f.write("\n")
-    os.replace(tmp, os.path.join(HERE, "evidence", f"{prop}.json"))
+    os.replace(tmp, out)
 
 
 if __name__ == "__main__":
